@@ -12,6 +12,15 @@ OTHERS = ["CCO>>CCO", "CCBr.[OH-]>>CCO", "CC(=O)Cl.N>>CC(N)=O", "CC>>CCC", "CCO.
           "c1ccccc1>>c1ccccc1Cl", "CC=O>>CCO"]
 
 
+# Reactions whose MCS result gets a confidence at the ends of the scale. Found by running the family "k equivalents
+# of an addition / hydrolysis plus small spectator molecules" (harness/gen.py style derivation) at threshold 0 and
+# keeping the extremes: the reported confidence of the first four is 0.0, of the last two > 0.995.
+EXTREMES = ["CN.C=CC#N.CN.C=CC#N.C>>CNCCC#N.CNCCC#N", "CN.C=CC#N.CN.C=CC#N.CO>>CNCCC#N.CNCCC#N",
+            "C=CC=O.CS.C=CC=O.CS.C>>CSCCC=O.CSCCC=O", "C=CC=O.CS.C=CC=O.CS.CO>>CSCCC=O.CSCCC=O",
+            "CC(=O)OCC.CC(=O)OCC.c1ccccc1>>CCO.CCO", "CC(=O)Nc1ccccc1.CC(=O)Nc1ccccc1.c1ccccc1>>Nc1ccccc1",
+            "CC(=O)Nc1ccccc1.c1ccccc1>>Nc1ccccc1"]
+
+
 def _renderings(t):
     out = {repr(t), "%g" % t, "{:.2%}".format(t), "{:.1%}".format(t), "{:.0%}".format(t), "{:.3f}".format(t),
            "{:.2f}".format(t), str(round(t * 100, 2))}
@@ -41,7 +50,7 @@ def run(tier):
     wd = common.workdir("rec", th, "c13_%s_%d" % (tier, common.seed()), fresh=True)
     n_corpus = 30 if tier == "quick" else 260
     pool = corpus.small_fast(corpus.unbalanced_reactions() + corpus.plain_reactions())
-    batch = KNOWN_MCS + OTHERS + corpus.sample(pool, n_corpus, rng)
+    batch = KNOWN_MCS + OTHERS + EXTREMES + corpus.sample(pool, n_corpus, rng)
     seen = set()
     batch = [s for s in batch if oracle.reaction_facts(s)["parses"] and not (s in seen or seen.add(s))]
     rng.shuffle(batch)
@@ -69,13 +78,16 @@ def run(tier):
             ts.add(min(1.0, round(c + 0.001, 3)))
             ts.add(max(0.0, round(c - 0.001, 3)))
         ts = sorted(t for t in ts if 0 < t <= 1)
+        # the same thresholds as integers, 0 again (explicitly passed), and a threshold no result can reach
+        ts = ts + [1, 0, 0.0]
         nid += 1
         events.append({"ev": "ref", "id": nid, "fam": fi, "t_raw": "0", "rows": _rows_event(rows, 0.0)})
         p2 = os.path.join(wd, "plan2_%d.json" % fi)
         runs = []
         for k, t in enumerate(ts):
             runs.append({"name": "t=%r" % t, "inputs": inputs, "form": "list",
-                         "batch_size": 9 if k == 2 else None, "n_jobs": 16, "threshold": t})
+                         "batch_size": {2: 9, 3: 1, 5: 2}.get(k), "n_jobs": 1 if k in (3, 5) else 16, "threshold": t,
+                         "ctor": k % 3 == 1})
         with open(p2, "w") as f:
             json.dump({"runs": runs}, f)
         log2 = os.path.join(wd, "runs_%d.ndjson" % fi)
